@@ -17,4 +17,9 @@ HARNESSES.append(
                                 "parseGeneralNames:/while \\(activeName != NULL\\)/": 5,
                                 "parseGeneralNames:/for \\(c = p; c < save/": 10,
                                 "strncpy.0": 20, "vf_harness:/for \\(/": 11})]))
-PROPERTY = dict(level="model_checking", explanation="", bounds="", outside="", assumptions=[])
+PROPERTY = dict(level='model_checking',
+    claim='With every allocation allowed to fail (fault bits drawn from the tape, all schedules decided at once): no NULL dereference, failures are reported as negative return codes, nothing leaks after delete.',
+    bounds='matrixSslNewClientSession (callees stubbed), parseGeneralNames on 9-byte DER',
+    outside='all other allocation sites (key loading, handshake, bignum scratch buffers, ticket keys)',
+    explanation='With every allocation allowed to fail (fault bits drawn from the tape, all schedules decided at once): no NULL dereference, failures are reported as negative return codes, nothing leaks after delete.',
+    assumptions=[])
